@@ -16,6 +16,21 @@ fn client_layout(size: u16, op: u32) -> [u8; 6] {
 }
 
 /// cuts to enumerate for a prefix of `n` delivered bytes: all 2^(n-1) fragmentations
+/// How many consecutive interruptions precede every byte: 1 as a rule; for the finest fragmentation of every fourth sample a
+/// storm (a caller blocked in read() under a timer signal without SA_RESTART sees arbitrarily many; read_exact / write_all
+/// retry without limit).
+fn storm_for(sample: u64, cuts: u32, ncuts: u32) -> u32 {
+    if cuts + 1 != ncuts || sample % 4 != 0 {
+        return 1;
+    }
+    let s = [64u32, 65, 255, 256, 257, 1000, 70_000, 300][(sample / 4 % 8) as usize];
+    if cfg!(miri) && s > 300 {
+        300
+    } else {
+        s
+    }
+}
+
 fn all_cuts(n: usize) -> u32 {
     if n <= 1 {
         1
@@ -464,12 +479,16 @@ macro_rules! add_expansion {
                     for interrupt in [false, true] {
                         let mut obj = snapshot.clone();
                         let mut rd = FragReader::new(&wire, len, cuts, interrupt, Fail::None);
+                        rd.storm = storm_for(cx.sample, cuts, all_cuts(len));
+                        if rd.storm > 1 && interrupt {
+                            cx.rep.count("interruption_storms_64_to_70000_before_every_byte", 1);
+                        }
                         cx.rep.ev(1);
                         match guard(|| read_it(&mut obj, &mut rd)) {
                             Err(e) => cx.viol(&format!("panic:fragmented_read:{}", hk), e),
                             Ok(Err(e)) => cx.viol(
                                 &format!("fragmented_read_fails:{}:{}", hk, if interrupt { "interrupted" } else { "fragments" }),
-                                format!("a reader delivering the header in fragments (cuts {:#b}, interruptions {}) made the call fail: {}", cuts, interrupt, e),
+                                format!("a reader delivering the header in fragments (cuts {:#b}, interruptions {}, {} in a row) made the call fail: {}", cuts, interrupt, storm_for(cx.sample, cuts, all_cuts(len)), e),
                             ),
                             Ok(Ok(h)) => {
                                 if h != (size, op) {
@@ -560,6 +579,7 @@ macro_rules! add_expansion {
                     for interrupt in [false, true] {
                         let mut obj = snapshot.clone();
                         let mut wr = FragWriter::new(len, cuts, interrupt, Fail::None);
+                        wr.storm = storm_for(cx.sample, cuts, all_cuts(len));
                         cx.rep.ev(1);
                         cx.rep.count("short_write_patterns_enumerated", 1);
                         match guard(|| write_it(&mut obj, &mut wr)) {
@@ -1072,12 +1092,18 @@ pub fn wrath_sample(rep: &mut Rep, rng: &mut Rng, sample: u64, faults_full: bool
             }
         };
         let len = wire.len();
-        let next_wire = rng.bytes(16);
-        let mut next_expect = next_wire.clone();
+        // what follows on the wire: for the server kinds it starts with one more (short) header, so that the read-based call
+        // can take it as well as the raw call
+        let mut next_expect = rng.bytes(16);
+        if hk != "client6" {
+            next_expect[0] &= 0x7f;
+        }
+        let next_hdr = (u32::from_be_bytes([0, 0, next_expect[0], next_expect[1]]), u16::from_le_bytes([next_expect[2], next_expect[3]]) as u32);
+        let mut next_wire = next_expect.clone();
         {
             let mut m = if hk == "client6" { m_c2s.clone() } else { m_s2c.clone() };
             m.skip(len);
-            m.xor(&mut next_expect);
+            m.xor(&mut next_wire);
         }
         let via_half = rng.chance(1, 2);
         // read through the library; returns decoded header as (u32 size, u32 opcode)
@@ -1103,6 +1129,10 @@ pub fn wrath_sample(rep: &mut Rep, rng: &mut Rng, sample: u64, faults_full: bool
                 cx.rep.count("fragmentations_enumerated", 1);
                 cx.rep.cell(&[14, len as u64, cuts as u64, interrupt as u64, (hk == "client6") as u64]);
                 let mut rd = FragReader::new(&wire, len, cuts, interrupt, Fail::None);
+                        rd.storm = storm_for(cx.sample, cuts, all_cuts(len));
+                        if rd.storm > 1 && interrupt {
+                            cx.rep.count("interruption_storms_64_to_70000_before_every_byte", 1);
+                        }
                 let (res, after): (Result<std::io::Result<(u32, u32)>, String>, Vec<u8>) = if hk == "client6" {
                     let mut obj = server.clone();
                     let r = guard(|| read_srv(&mut obj, &mut rd));
@@ -1120,7 +1150,7 @@ pub fn wrath_sample(rep: &mut Rep, rng: &mut Rng, sample: u64, faults_full: bool
                     Err(e) => cx.viol(&format!("panic:fragmented_read:{}", hk), e),
                     Ok(Err(e)) => cx.viol(
                         &format!("fragmented_read_fails:{}:{}", hk, if interrupt { "interrupted" } else { "fragments" }),
-                        format!("a reader delivering the header in fragments (cuts {:#b}, interruptions {}) made the call fail: {}", cuts, interrupt, e),
+                        format!("a reader delivering the header in fragments (cuts {:#b}, interruptions {}, {} in a row) made the call fail: {}", cuts, interrupt, storm_for(cx.sample, cuts, all_cuts(len)), e),
                     ),
                     Ok(Ok(h)) => {
                         if h != want {
@@ -1222,8 +1252,25 @@ pub fn wrath_sample(rep: &mut Rep, rng: &mut Rng, sample: u64, faults_full: bool
                                         }
                                         let h = guard(|| obj.decrypt_large_server_header(wire[4]));
                                         let mut t = next_wire.clone();
-                                        obj.decrypt(&mut t);
+                                        let mut next_ok = true;
+                                        if (fi + cuts as usize) % 2 == 1 {
+                                            // the header that follows is taken by the read-based call again
+                                            cx.rep.count("read_based_call_after_a_header_completed_by_its_late_fifth_byte", 1);
+                                            match guard(|| obj.read_and_decrypt_server_header(&mut &next_wire[..]).map(|h| (h.size, h.opcode as u32))) {
+                                                Ok(Ok(h2)) if h2 == next_hdr => {
+                                                    t[..4].copy_from_slice(&next_expect[..4]);
+                                                    obj.decrypt(&mut t[4..]);
+                                                }
+                                                _ => next_ok = false,
+                                            }
+                                        } else {
+                                            obj.decrypt(&mut t);
+                                        }
                                         match h {
+                                            Ok(_) if !next_ok => cx.viol(
+                                                "read_after_late_fifth_byte:server5",
+                                                format!("after a 5-byte header whose fifth byte failed to arrive ({:?}) was completed by supplying that byte later, the read-based call does not decode the header that follows", fk),
+                                            ),
                                             Ok(h) if (h.size, h.opcode as u32) == want && t == next_expect => {
                                                 if !untouched {
                                                     cx.rep.count("failed_read_object_not_eq_but_behaviour_same", 1);
@@ -1281,6 +1328,7 @@ pub fn wrath_sample(rep: &mut Rep, rng: &mut Rng, sample: u64, faults_full: bool
         for cuts in 0..all_cuts(len) {
             for interrupt in [false, true] {
                 let mut wr = FragWriter::new(len, cuts, interrupt, Fail::None);
+                        wr.storm = storm_for(cx.sample, cuts, all_cuts(len));
                 cx.rep.ev(1);
                 cx.rep.count("short_write_patterns_enumerated", 1);
                 cx.rep.cell(&[16, len as u64, cuts as u64, interrupt as u64, (hk == "client6") as u64]);
